@@ -23,10 +23,10 @@ T = {
          'frames > 1 KiB', 'exhaustive truncation / field-fault enumeration (E1)', '3/C09'),
  'C10': ('model_checking', 'progress and flush-decodability oracles on every transition of the C02 state graphs; hint-following decoder over every catalogue frame',
          'as C02', 'explicit-state search on snapshots (E3)', '3/C10'),
- 'C11': ('model_checking', 'real zstdmt code under a deterministic scheduler: every schedule with at most P preemptions / D deviations of several drivers; oracle: termination, decodes to input, one output, ASan clean',
-         'sequential consistency between synchronisation points; <= 3 workers; small-job build (ZSTDMT_JOBSIZE_MIN=1024)', 'preemption-bounded stateless exploration of the implementation (E2)', '3/C11'),
- 'C12': ('model_checking', 'real pool.c under the deterministic scheduler for every client program of a small grammar and every schedule in the bound; exactly-once / join / resize / free oracles against an ideal pool',
-         'threads <= 3, queue <= 2, programs <= 6 operations', 'preemption-bounded stateless exploration (E2) + Spin model with trail replay', '3/C12'),
+ 'C11': ('model_checking', 'real zstdmt code under a deterministic scheduler: every schedule with at most P preemptions / D deviations of several drivers; oracle: termination, decodes to input (library + reference decoder), one output, ASan clean, and no data race (ThreadSanitizer evaluated inside every explored schedule, happens-before from the modelled primitives only); seam harnesses for the serial section and the pools without preemption bound',
+         'sequential consistency between synchronisation points; <= 3 workers; small-job build (ZSTDMT_JOBSIZE_MIN=1024)', 'preemption-bounded stateless exploration of the implementation under a deterministic scheduler (E2), state-cached exhaustive exploration of the serial-section / pool seams, race detection inside each explored schedule', '3/C11'),
+ 'C12': ('model_checking', 'real pool.c under the deterministic scheduler for every client program of a small grammar and every schedule in the bound; exactly-once / join / resize / free oracles, no deadlock, no use-after-free, no unsynchronised access (sched-tsan unit)',
+         'threads <= 3, queue <= 2, programs <= 6 operations', 'preemption-bounded stateless exploration of the implementation under a deterministic scheduler (E2), race detection inside each explored schedule', '3/C12'),
  'C13': ('fault_enumeration', 'for each API scenario every allocation index is failed once (and every pair for short scenarios) through ZSTD_customMem; oracle: no crash, error returned, allocator live set empty, retry succeeds',
          'scenario catalogue is finite; MT scenarios use the zero-deviation schedule', 'exhaustive fault-index enumeration (E1 + counting allocator)', '3/C13'),
  'C14': ('exploration', 'static contexts of exactly the estimated size between guard pages, over all level pairs / cParams deviations / window descriptors; sizeof vs counting allocator',
